@@ -56,8 +56,9 @@ def skeleton_key(settings):
 def plan(tier, seed):
     # an entry may be a tuple = union of palette entries; [5] and [1, (1, 5)] end with a call that
     # changes ONLY the radial power, [0, (0, 3)] only the method
-    H_quick = [[5], [1, (1, 5)], [2, 4, 2]]
-    H_more = [[3, 0, 3, 1], [0, 0], [5, 6, 3], [6, 4], [0, (0, 3)], [6, (6, 5), 6], [3], [7], [8], [7, 4], [3, 7, 3]]
+    # [6, 4] ends with the empty settings (back to the defaults) after non-default ones
+    H_quick = [[5], [1, (1, 5)], [2, 4, 2], [6, 4]]
+    H_more = [[3, 0, 3, 1], [0, 0], [5, 6, 3], [1, 4], [0, (0, 3)], [6, (6, 5), 6], [3], [7], [8], [7, 4], [3, 7, 3]]
     # a mesh BUILT with poloidal_orthogonal_combined (single null: the default 'combined' method is
     # refused for this family), taken to other settings of the same method and back
     H_poc = [[(0, 3)], [(5, 3), (6, 3)], [(1, 3), (2, 3), 3], [4], [(6, 3), 3]]
